@@ -139,7 +139,7 @@ PROPS["C14"] = {
     "channels": [{"cmd": "run-c14", "shards": 8}],
     "cone": r"^MISMATCH (walk|harness|driver)",
     "rule": "24 (thorough 400) random histories of 1-8 Extend calls on the root, on built-in formats at every depth and on earlier extensions, detectors from a serialisable family (prefix, byte-at-offset, minimum length, always, never), caller-owned alias slices with spare capacity; each history in a fresh process: after every call the dumped pointer graph must equal the model's insert-in-front tree and parent pointers must agree with children lists; 18 probe inputs x limits {3072, 0}: Detect must equal the first-match walk over the enlarged tree driven by the observed verdicts, inputs rejected by every extension must be classified as in an extension-free process; Lookup of every extension name and alias (right parent, Is); a result taken before the calls is re-read afterwards",
-    "proved": "Extend prepends; priority and containment; non-interference; histories: for all trees, verdict functions and op sequences",
+    "proved": "Extend prepends; priority and containment; non-interference; histories: for all trees, verdict functions and op sequences; Lookup = first node in flatten order carrying the name, the extension sits directly behind its parent in that order, hence a fresh extension name or alias resolves to the extension and every other name resolves as before (C14_lookup_*)",
     "not_proved": "aliasing of the caller's alias slice backing array is a runtime fact (checked on the code)",
     "assumptions": COMMON_ASSUME + ["extension detectors are pure total predicates of (header, limit)"],
 }
@@ -176,7 +176,7 @@ PROPS["C04"] = {
     "channels": [{"cmd": "run-c04", "driver": False, "shards": 1}, {"cmd": "run-json"}],
     "cone": r"^MISMATCH (json|json-fuel|ndjson|harness|driver)",
     "rule": "reference: each of ~55 (input, limit) pairs detected alone in a fresh child process; then 40 (thorough 1500) single-goroutine histories of 2-30 detections (geojson/har/gltf after aborted deep parses, 9 kB documents, cut documents, CSV of width 7 then 2, ragged and quoted CSV, NDJSON, HTML/XML) with dirty recycled parser states injected through the hook, 8 goroutines detecting concurrently, bytes beyond the limit inverted; every result must equal the reference; the caller's buffer and 32 bytes of spare capacity are hashed before and after; json channel: Parse with all four queries after injecting dirty states vs the pure model",
-    "proved": "reset erases every field a scan reads; Parse on any recycled state = Parse on a fresh state of the same cap; history_pure for every op list and pool behaviour under the pool invariant (cap constant)",
+    "proved": "the model's Detect depends on the header only (same first `limit` bytes => same result; bytes past the limit irrelevant); reset erases every field a scan reads; Parse on any recycled state = Parse on a fresh state of the same cap; history_pure for every op list and pool behaviour under the pool invariant (cap constant)",
     "not_proved": "immutability of the caller's buffer and the bufio.Reader pool are established on the implementation only",
     "assumptions": COMMON_ASSUME + ["sync.Pool.Get returns a previously Put value or New()", "bufio.Reader.Reset discards all state"],
 }
